@@ -184,7 +184,7 @@ def part_escape(ctx):
         return
     strings = ['', '&', '<', '>', '"', "'", '&amp;', '&&amp;;', '<b a="1">&\'', 'a&lt;b', '&#x27;', "''\"\"", '\ud800<',
                '<<>>', '&lt', 'amp;', '&amp', '\x00<\x01>']
-    n = ctx.n(500, 6000)
+    n = ctx.n(350, 6000)
     for _ in range(n):
         strings.append(gen_string(ctx.rng))
     terms, descr = [], []
@@ -265,7 +265,7 @@ def part_handlers(ctx, table, codes, locs):
         return {}
     skeletons = {}
     terms, descr, tok_terms, tok_descr = [], [], [], []
-    n_each = ctx.n(45, 500)
+    n_each = ctx.n(35, 500)
     for cname, rel, tpl, has_loc in table:
         try:
             cls = import_class(rel, cname)
@@ -1116,7 +1116,7 @@ def part_host(ctx):
             v = gen_string(rng, surrogates=False, maxlen=8)
         return rng.choice(spaces) + v + rng.choice(spaces) if rng.random() < 0.3 else v
     terms, descr = [], []
-    for _ in range(ctx.n(250, 3000)):
+    for _ in range(ctx.n(200, 3000)):
         xfh = hostval() if rng.random() < 0.35 else None
         hh = hostval() if rng.random() < 0.75 else None
         xfp = rng.choice([None, None, '', 'http', 'https', 'HTTPS', 'ftp', ' https', '"><c18m>'])
